@@ -414,6 +414,16 @@ def check_expand_wrappers(cx: Cx, ob: Ob) -> None:
             ob.funnel(fn.qualname, where(fn, line), f"expand_all returns `{show(t)[:70]}`, not expand_pair_all(prefix, identifier)", any(self_call(x, me, "expand_pair_all") for x, _ in s.returns()), "expand_pair_all")
             continue
         ca, cb = component(t[2][0]), component(t[2][1])
+        base = ca[0] if ca and cb and ca[1] == 0 and cb[1] == 1 and ca[0] == cb[0] else None
+        if base is not None and op(base) == "call" and op(base[1]) == "attr" and op(base[1][1]) == "cls" and base[1][2] == "from_curie" and base[2][:1] == (("param", "curie"),):
+            # the CURIE cut in place by the reference classes' own splitter: expand_pair_all resolves synonyms itself
+            # (get_record), so only the separator matters - it has to be the converter's
+            sep = dict(base[3]).get("sep", base[2][1] if len(base[2]) > 1 else None)
+            if sep == ("attr", me, "delimiter"):
+                ob.site(f"{where(fn, line)} {fn.qualname}", "CURIE cut by from_curie(curie, sep=self.delimiter)")
+            else:
+                ob.violate(fn.qualname, where(fn, line), f"expand_all cuts the CURIE with {show(base)[:60]}: the separator is {'the default' if sep is None else show(sep)[:20]}, not self.delimiter, so a converter with another delimiter splits at the wrong place (or not at all)", witness="Converter(..., delimiter='/'): expand_all('GO/1') is None although expand('GO/1') resolves", detail="base-delimiter")
+            continue
         if not (ca and cb and ca[1] == 0 and cb[1] == 1 and ca[0] == cb[0] and self_call(ca[0], me, "parse_curie") and ca[0][2][:1] == (("param", "curie"),)):
             ob.violate(fn.qualname, where(fn, line), "expand_all does not pass (prefix, identifier) of parse_curie(curie)", detail="base")
     if not found:
@@ -520,6 +530,26 @@ def check_expand_pair_all(cx: Cx, ob: Ob) -> None:
             ob.violate(fn.qualname, where(fn, line), "canonical and synonym expansions come from different records", detail="cross-record")
             continue
         r = next(iter(recs))
+        from ..rules import inline_functions
+
+        r_in = inline_functions(cx, r)
+        if op(r_in) == "call" and r_in[1] == ("builtin", "next") and r_in[2] and op(r_in[2][0]) == "comp" and len(r_in[2][0][3]) == 1 and r_in[2][0][3][0][1] == ("attr", me, "records") and r_in[2][0][2] == r_in[2][0][3][0][0] and len(r_in[2]) == 2 and is_const(r_in[2][1], None):
+            # get_record written out in place: the first record of self.records one of whose CURIE-side names is the prefix
+            import itertools
+
+            from ..rules import formula_atoms, formula_eval
+
+            tgt, it, ifs = r_in[2][0][3][0]
+            prov.add_binding(tgt, it)
+            formula = ("and", tuple(ifs)) if len(ifs) != 1 else ifs[0]
+            atoms = formula_atoms(formula) if ifs else []
+            rows = []
+            for vals in itertools.product((True, False), repeat=len(atoms)):
+                asg = dict(zip(atoms, vals))
+                rows.append((asg, formula_eval(formula, asg) if ifs else True))
+            ob.site(f"{where(fn, line)} {fn.qualname}", "record found by a first-match scan of self.records written out in place")
+            _judge_scan(ob, fn, prov, ("param", "prefix"), line, tgt, atoms, rows, who="expand_pair_all's record scan")
+            continue
         if (op(r) == "call" and not self_call(r, me, "get_record") and (self_call(r, me) or op(r[1]) == "func")) or any(op(x) in ("phi", "unk") for x in subterms(r)):
             # another lookup helper (an index, a binary search): whether it finds the record get_record finds is
             # a question about that helper, which this rule does not answer
@@ -528,6 +558,34 @@ def check_expand_pair_all(cx: Cx, ob: Ob) -> None:
             ob.violate(fn.qualname, where(fn, line), f"record is `{show(r)[:60]}`, not self.get_record(prefix)", detail="record-source")
     if not found:
         ob.undecide("expand_pair_all has no success return")
+
+
+def _judge_scan(ob: Ob, fn, prov, probe, line, rec, atoms, rows, who: str = "get_record") -> None:
+    """rows: (assignment, returns-the-record?) - the record must be returned exactly when one of its CURIE-side names equals the probe."""
+    for a in atoms:
+        for c in subterms(a):
+            if op(c) == "cmp" and c[1] in ("in", "not in") and c[2] == probe and op(c[3]) == "attr" and c[3][2] in ("prefix", "uri_prefix"):
+                ob.violate(fn.qualname, where(fn, line), f"{who} tests `{show(c)[:50]}`: `in` on the canonical {c[3][2]} (a str) is a SUBSTRING test - every name contained in a canonical prefix, the empty one included, finds that record", witness="'PO' finds the record of 'APO'; '' finds the first record", detail="substring:" + c[3][2])
+                return
+    cover = {a: cmp_cover(prov, a, probe) for a in atoms}
+    if any(r == "?" for c in cover.values() for r, _ in c):
+        ob.undecide(f"{who} compares against an unrecognised term")
+    names = {a: {f for r, f in c if r == rec and f in CURIE_SIDE} for a, c in cover.items()}
+    extra_f = {a: {f for r, f in c if r != "?" and not (r == rec and f in CURIE_SIDE)} for a, c in cover.items()}
+    bad_fields, extra = set(), set()
+    for asg, returned in rows:
+        true_names = set().union(*[names[a] for a in atoms if asg[a]]) if atoms else set()
+        if true_names and not returned:
+            bad_fields |= true_names if len(true_names) == 1 else set()
+        if not true_names and returned:
+            extra |= set().union(*[extra_f[a] or {"?"} for a in atoms if asg[a]]) if any(asg[a] for a in atoms) else {"unconditional"}
+    # a field is missed when some assignment in which only it matches does not return the record
+    missing = (CURIE_SIDE - set().union(*names.values())) | bad_fields if atoms else set(CURIE_SIDE)
+    if missing:
+        ob.violate(fn.qualname, where(fn, line), f"{who} does not match on {sorted(missing)}", witness="expand_pair_all(<synonym>, x) finds no record", detail="cover:" + "+".join(sorted(missing)))
+    if extra:
+        ob.violate(fn.qualname, where(fn, line), f"{who} also matches on {sorted(map(str, extra))}", detail="cover-extra")
+
 
 
 def check_get_record(cx: Cx, ob: Ob) -> None:
@@ -542,25 +600,7 @@ def check_get_record(cx: Cx, ob: Ob) -> None:
     ok = False
 
     def judge(line, rec, atoms, rows):
-        """rows: (assignment, returns-the-record?) - the record must be returned exactly when one of its CURIE-side names equals the probe."""
-        cover = {a: cmp_cover(prov, a, probe) for a in atoms}
-        if any(r == "?" for c in cover.values() for r, _ in c):
-            ob.undecide("get_record compares against an unrecognised term")
-        names = {a: {f for r, f in c if r == rec and f in CURIE_SIDE} for a, c in cover.items()}
-        extra_f = {a: {f for r, f in c if r != "?" and not (r == rec and f in CURIE_SIDE)} for a, c in cover.items()}
-        bad_fields, extra = set(), set()
-        for asg, returned in rows:
-            true_names = set().union(*[names[a] for a in atoms if asg[a]]) if atoms else set()
-            if true_names and not returned:
-                bad_fields |= true_names if len(true_names) == 1 else set()
-            if not true_names and returned:
-                extra |= set().union(*[extra_f[a] or {"?"} for a in atoms if asg[a]]) if any(asg[a] for a in atoms) else {"unconditional"}
-        # a field is missed when some assignment in which only it matches does not return the record
-        missing = (CURIE_SIDE - set().union(*names.values())) | bad_fields if atoms else set(CURIE_SIDE)
-        if missing:
-            ob.violate(fn.qualname, where(fn, line), f"get_record does not match on {sorted(missing)}", witness="expand_pair_all(<synonym>, x) finds no record", detail="cover:" + "+".join(sorted(missing)))
-        if extra:
-            ob.violate(fn.qualname, where(fn, line), f"get_record also matches on {sorted(map(str, extra))}", detail="cover-extra")
+        _judge_scan(ob, fn, prov, probe, line, rec, atoms, rows)
 
     seen_loops = set()
     for t, ctx in s.returns():
